@@ -51,6 +51,7 @@ type fakeCln struct {
 	invoice    map[string]interface{} // fields of the decoded invoice
 	// per-case observation
 	sendpays []map[string]json.RawMessage
+	invoices []map[string]json.RawMessage // params of `invoice` calls (psh invoice)
 	ln       net.Listener
 }
 
@@ -91,6 +92,9 @@ func (f *fakeCln) serve(conn net.Conn) {
 			} else {
 				rpcErr = map[string]interface{}{"code": -32602, "message": "Invalid bolt11"}
 			}
+		case "invoice":
+			f.invoices = append(f.invoices, req.Params)
+			result = map[string]interface{}{"bolt11": "lnbcrt1fakeinvoice", "payment_hash": strings.Repeat("ab", 32), "payment_secret": strings.Repeat("cd", 32), "expires_at": 1}
 		case "sendpay":
 			f.sendpays = append(f.sendpays, req.Params)
 			result = map[string]interface{}{"message": "Monitor status with listpays or waitsendpay", "status": "pending", "id": 1}
@@ -135,7 +139,13 @@ func startFakeCln(dir string) (*fakeCln, error) {
 
 // ---------------------------------------------------------------- fake lnd
 
+func (f *fakeLnd) AddInvoice(ctx context.Context, in *lnrpc.Invoice, opts ...grpc.CallOption) (*lnrpc.AddInvoiceResponse, error) {
+	f.addInvoices = append(f.addInvoices, in)
+	return &lnrpc.AddInvoiceResponse{PaymentRequest: "lnbcrt1fakeinvoice"}, nil
+}
+
 type fakeLnd struct {
+	addInvoices           []*lnrpc.Invoice
 	lnrpc.LightningClient // nil: any other RPC would panic (none is used on this path)
 	decoded               *lnrpc.PayReq
 	decodeErr             error
